@@ -4,6 +4,7 @@ import (
 	"fmt"
 	"runtime/debug"
 	"syscall"
+	"unsafe"
 )
 
 // guardArena is a run of readable/writable pages with an inaccessible page
@@ -65,7 +66,10 @@ func catchFault(f func()) (err error) {
 	return nil
 }
 
-var guardArenas []*guardArena
+var (
+	guardArenas  []*guardArena
+	guardChecked bool
+)
 
 // guards returns k arenas of at least size bytes (allocated once per process).
 func guards(k, size int) ([]*guardArena, error) {
@@ -75,6 +79,21 @@ func guards(k, size int) ([]*guardArena, error) {
 			return nil, err
 		}
 		guardArenas = append(guardArenas, g)
+	}
+	if !guardChecked {
+		// self-check of the mechanism: one byte past the end / before the start must fault
+		g := guardArenas[0]
+		t, h := g.tail(8), g.head(8)
+		var sink byte
+		e1 := catchFault(func() { sink = *(*byte)(unsafe.Add(unsafe.Pointer(&t[7]), 1)) })
+		e2 := catchFault(func() { sink = *(*byte)(unsafe.Add(unsafe.Pointer(&h[0]), -1)) })
+		e3 := catchFault(func() { sink = t[7] + h[0] })
+		_ = sink
+		if e1 == nil || e2 == nil || e3 != nil {
+			guardArenas = nil
+			return nil, fmt.Errorf("guard page self-check failed (past-end fault: %v, before-start fault: %v, in-bounds: %v)", e1, e2, e3)
+		}
+		guardChecked = true
 	}
 	for _, g := range guardArenas[:k] {
 		if g.size() < size {
